@@ -931,7 +931,10 @@ func prc(sb *strings.Builder, t *Term, o PrintOpts, c pctx) {
 			prc(sb, t.Sub[2], o, inner)
 			return
 		}
-		sb.WriteString(" ? ")
+		// the library locates a conditional at its question mark
+		sb.WriteString(" ")
+		mark()
+		sb.WriteString("? ")
 		prc(sb, t.Sub[1], o, inner)
 		sb.WriteString(" : ")
 		prc(sb, t.Sub[2], o, inner)
